@@ -654,7 +654,54 @@ func updateTakesEffect(c *Ctx, m string) {
 				(isMsgParams(p.E.Args[0]) && isStored(p.E.Args[1]) || isStored(p.E.Args[0]) && isMsgParams(p.E.Args[1]))
 	}
 	bad := w.FlatMustPassM(h, isWrite, same)
-	r.Require(len(bad) == 0, "A3.update-stores", m, w.Pos(h.Pos()), "every successful MsgUpdateParams stores the new parameters (they take effect with that very transaction)", fmt.Sprintf("%d success return(s) reachable without a write of the params section", len(bad)))
+	detail := fmt.Sprintf("%d success return(s) reachable without a write of the params section", len(bad))
+	if len(bad) > 0 {
+		// ... or of a comparison field by field that leaves no field out: for every field of Params the way round the
+		// write passes "stored F == msg.Params.F" (a diff that forgets a field lets an update of that field go unstored)
+		if pk := w.Pkg("x/" + m + "/types"); pk != nil {
+			if tn, ok := pk.Types.Scope().Lookup("Params").(*types.TypeName); ok {
+				if st, ok := tn.Type().Underlying().(*types.Struct); ok && st.NumFields() > 0 {
+					missing := ""
+					for i := 0; i < st.NumFields(); i++ {
+						fname := st.Field(i).Name()
+						isNew := func(e *ir.Expr) bool {
+							x := w.Expand(e, 4)
+							return x.Op == "field" && x.Name == fname && len(x.Args) == 1 && isMsgParams(x.Args[0])
+						}
+						isOld := func(e *ir.Expr) bool {
+							x := w.Expand(e, 5)
+							ok := false
+							for _, a := range x.Alts() {
+								if a.Op == "field" && a.Name == fname && len(a.Args) == 1 && a.Args[0].Op == "state" && a.Args[0].Name == paramsSection(m) {
+									ok = true
+								}
+							}
+							return ok
+						}
+						eqF := func(p ir.Pred) bool {
+							return cmpIs(p, "==", isNew, isOld) || cmpIs(p, "==", isOld, isNew) ||
+								p.Pol && p.E.Op == "call" && strings.HasSuffix(p.E.Name, ".Equal") && len(p.E.Args) == 2 &&
+									(isNew(p.E.Args[0]) && isOld(p.E.Args[1]) || isOld(p.E.Args[0]) && isNew(p.E.Args[1]))
+						}
+						for _, ret := range bad {
+							if !w.Guarded(h, ret, eqF, 4) && len(w.FlatMustPassM(h, isWrite, eqF)) > 0 {
+								missing = fname
+							}
+						}
+						if missing != "" {
+							break
+						}
+					}
+					if missing == "" {
+						bad = nil
+					} else {
+						detail += "; the field-by-field comparison leaves out " + missing
+					}
+				}
+			}
+		}
+	}
+	r.Require(len(bad) == 0, "A3.update-stores", m, w.Pos(h.Pos()), "every successful MsgUpdateParams stores the new parameters (they take effect with that very transaction)", detail)
 	// what is stored is the message's Params
 	n := 0
 	for _, in := range instantiate(c, h, func(e ir.Effect) bool { return e.Kind == "StoreWrite" && e.Section == paramsSection(m) }, func(e ir.Effect) *ir.Expr { return marshalArg(c, e) }) {
